@@ -160,7 +160,7 @@ def _cg(
                 info = 0
                 break
             else:
-                pos = previous_gamma / (-curv) * (-j)
+                pos = pos - previous_gamma / (-curv) * r
                 info = 0
                 break
         alpha = previous_gamma / curv
@@ -281,7 +281,7 @@ def _static_cg(
         pos = pos - alpha * d
         pos = where(
             (curv < 0.0) & (not _raise_nonposdef) & (i <= 1),
-            previous_energy / (-curv) * (-j),
+            pos - previous_gamma / (-curv) * r,
             pos,
         )
         r = cond(
